@@ -21,6 +21,7 @@ import (
 	"github.com/fxtlabs/primes"
 	"google.golang.org/grpc/codes"
 	"google.golang.org/grpc/status"
+	"google.golang.org/protobuf/proto"
 )
 
 // Geometry is the configuration of one local store.
@@ -63,6 +64,22 @@ func (g Geometry) BlockCount() int { return g.Spare + g.Old + g.Current + g.New 
 func (g Geometry) String() string {
 	return fmt.Sprintf("S%dxB%d o%dc%dn%dp%d mut=%v ac=%v hier=%v pers=%v mem=%v idxdev=%v slots=%d/%d/%d raw=%v",
 		g.SectorSize, g.SectorsPerBlock, g.Old, g.Current, g.New, g.Spare, g.Mutable, g.AC, g.Hierarchical, g.Persistent, g.InMemoryBlocks, g.IndexOnDevice, g.IndexSlots, g.GetAttempts, g.PutAttempts, g.RawReads) + map[bool]string{true: " integritycache", false: ""}[g.IntegrityCache]
+}
+
+// everListed reports whether any state the store has read or successfully written listed the region.
+func (s *Store) everListed(off int64) bool {
+	states := append([]*pb.PersistentState{s.InitialState}, s.StateStore.Written...)
+	for _, st := range states {
+		if st == nil {
+			continue
+		}
+		for _, bs := range st.Blocks {
+			if bs.BlockLocation.OffsetBytes == off {
+				return true
+			}
+		}
+	}
+	return false
 }
 
 // Media is everything that survives a restart.
@@ -218,6 +235,43 @@ func OpenWith(g Geometry, m *Media, opt OpenOptions) *Store {
 	return s
 }
 
+// afterCrashJudge builds TrackingAllocator.AfterCrash from the simulated state directory: every admissible
+// post-crash content of the directory (metadata operations after the last directory fsync as any prefix,
+// unsynced file data as a prefix) is examined.
+func afterCrashJudge(m *Media, everListed func(int64) bool) func(int64) string {
+	return func(off int64) string {
+		if m.Dir == nil {
+			return ""
+		}
+		var base map[string][]byte
+		if m.Base != nil && m.Base.Dir != nil {
+			base = m.Base.Dir.Files
+		}
+		for _, ds := range dirStates(base, m.Dir.Log, len(m.Dir.Log), false) {
+			c, ok := ds.Files["state"]
+			if !ok {
+				if everListed(off) {
+					return "after a crash there may be no state file at all (" + ds.Desc + "), while an earlier durable one listed the region"
+				}
+				continue
+			}
+			var st pb.PersistentState
+			if err := proto.Unmarshal(c, &st); err != nil {
+				if everListed(off) {
+					return fmt.Sprintf("after a crash the state file may be unreadable (%d of its bytes durable; %s): it was never made durable", len(c), ds.Desc)
+				}
+				continue
+			}
+			for _, bs := range st.Blocks {
+				if bs.BlockLocation.OffsetBytes == off {
+					return "after a crash the state file may still be one that lists the region (" + ds.Desc + ")"
+				}
+			}
+		}
+		return ""
+	}
+}
+
 // withIntegrityCache wraps base as new_blob_access.go's newCachedReadBufferFactory does (same key format
 // rule, LRU, 16 entries, one virtual hour). It is applied inside the tracking decorator so that readers
 // of cached (unvalidated) reads are still accounted for.
@@ -287,6 +341,7 @@ func openHarness(g Geometry, m *Media) *Store {
 			}
 			return s.InitialState
 		}
+		s.Alloc.AfterCrash = afterCrashJudge(m, s.everListed)
 		s.PBL, initialBlockCount = local.NewPersistentBlockList(s.Alloc, st.OldestEpochId, st.Blocks)
 		blockList = s.PBL
 		s.DataSyncs = &SyncTracker{}
@@ -512,8 +567,12 @@ type TrackingAllocator struct {
 	ReleaseTimes []time.Time // virtual time of each such call
 	// LastWrittenState returns the most recent durably written state (persistent only).
 	LastWrittenState func() *pb.PersistentState
-	RBF              *TrackingRBF
-	blocks           []*trackedBlock
+	// AfterCrash, when set, answers from the state directory's own durability model: "" if in every
+	// admissible post-crash content of the directory the state file is readable and does not list the
+	// region; otherwise what could be found instead.
+	AfterCrash func(offset int64) string
+	RBF        *TrackingRBF
+	blocks     []*trackedBlock
 }
 
 // NewTrackingAllocator wraps base.
@@ -557,6 +616,11 @@ func (a *TrackingAllocator) adopt(b local.Block, loc *pb.BlockLocation) local.Bl
 					a.violate("region at offset %d handed out for new data while the last durably written state file still lists it", r.Offset)
 				}
 			}
+		}
+	}
+	if a.AfterCrash != nil && a.LastWrittenState != nil {
+		if why := a.AfterCrash(loc.OffsetBytes); why != "" {
+			a.violate("region at offset %d handed out for new data although no state file without it is durable: %s", r.Offset, why)
 		}
 	}
 	r.Incarnation++
@@ -696,6 +760,11 @@ func (b *trackedBlock) Release() {
 					b.a.violate("region at offset %d released to the allocator while the last durably written state file still lists it", b.region.Offset)
 				}
 			}
+		}
+	}
+	if b.region != nil && b.a.AfterCrash != nil && b.a.LastWrittenState != nil {
+		if why := b.a.AfterCrash(b.region.Offset); why != "" {
+			b.a.violate("region at offset %d released to the allocator although no state file without it is durable: %s", b.region.Offset, why)
 		}
 	}
 	b.a.Releases++
